@@ -165,7 +165,6 @@ var optionalAPIFields = map[string]string{
 
 // reviewed exceptions for index/slice expressions and other panic sites: "function|expression" -> reason
 var panicExceptions = map[string]string{
-	"getStatefulSetRevisions|‹[]*v1.ControllerRevision›[‹int› - 1]":        "guarded by equalCount > 0: FindEqualRevisions returns a sub-sequence of its first argument, so a non-empty result means revisions is non-empty and revisionCount == len(revisions)",
 	"getPatch|‹map[string]interface{}›[\"spec\"].(map[string]interface{})":            "the codec always emits spec for a typed object: the JSON tag of Spec has a name and encoding/json writes struct-typed fields even with omitempty",
 	"getPatch|‹map[string]interface{}›[\"template\"].(map[string]interface{})":       "the JSON tag of Template has no omitempty (checked by C18.1)",
 	"ApplyRevision|runtime.EncodeOrDie(patchCodec, ‹*v1.StatefulSet›)":       "encoding a typed, registered object with the package's own codec cannot fail",
@@ -278,6 +277,7 @@ func runC15(c *Ctx) {
 		}
 	}
 	c.nilResults(scope)
+	c.validResults(scope)
 	c.Floor("C15.1-optional-dereferences", nDeref, 8)
 	c.Floor("C15.2-index-and-slice-sites", nIdx, 25)
 	c.Floor("C15.3-assertions-panics-ordie", nOther, 8)
